@@ -636,3 +636,253 @@ Proof.
   pose proof (links_at_NoDup k s d HI) as Hnd. unfold rm_succ, rm_get_users. cbn [rm_roles rm_users rm_set].
   split; [apply NoDup_map_snd_filter|apply NoDup_map_fst_filter]; exact Hnd.
 Qed.
+
+(* ------------------------------------------------------------------------------------------ *)
+(* 7. the depth premise: executable form, and a sufficient condition                           *)
+
+(* every implicit role of u is recognised by g(u, role): decidable on the running enforcer *)
+Definition depth_okb (k : mkind) (s : mstate) (u d : name) : bool :=
+  match get_implicit_roles k s u d with
+  | Ok (roles, _) => forallb (fun r => g_link (m_rm s) u r d) roles
+  | Err _ => false
+  end.
+
+Lemma MAXLVL_pos : (0 < MAXLVL)%nat.
+Proof. unfold MAXLVL. lia. Qed.
+
+Theorem depth_okb_shallow k s u d : k_g k = true -> k_g2 k = false -> Inv k s ->
+  depth_okb k s u d = true <-> shallow (links_at k s d) u.
+Proof.
+  intros Hg Hg2 HI. destruct (implicit_roles_reach k s u d Hg Hg2 HI) as [roles [s' [Hr [_ [Hin _]]]]].
+  unfold depth_okb. rewrite Hr. rewrite forallb_forall. split.
+  - intros H x n Hp. destruct n as [|n].
+    + inversion Hp; subst. exists 0%nat. split; [apply MAXLVL_pos|constructor].
+    + apply (g_link_near k s u x d HI). apply H. apply Hin. eauto.
+  - intros H r Hr'. apply (g_link_near k s u r d HI). apply Hin in Hr'. destruct Hr' as [n Hp]. apply (H r _ Hp).
+Qed.
+
+(* cutting cycles out of a path *)
+Section Shorten.
+  Variable E : name -> name -> Prop.
+  Variable T : list name.
+  Hypothesis E_T : forall a b, E a b -> In b T.
+
+  Fixpoint chain (a : name) (l : list name) : Prop :=
+    match l with [] => True | b :: l' => E a b /\ chain b l' end.
+  Definition lastn (a : name) (l : list name) : name := fold_left (fun _ b => b) l a.
+
+  Lemma path_chain : forall n a x, path E n a x -> exists l, length l = n /\ chain a l /\ lastn a l = x.
+  Proof.
+    intros n a x P. induction P as [a|n a b c Hab _ [l [Hl [Hc Hx]]]].
+    - exists []. repeat split.
+    - exists (b :: l). simpl. repeat split; auto.
+  Qed.
+
+  Lemma chain_path : forall l a, chain a l -> path E (length l) a (lastn a l).
+  Proof.
+    induction l as [|b l IH]; intros a H; simpl; [constructor|]. destruct H as [Hab Hc].
+    econstructor; [exact Hab|apply IH; exact Hc].
+  Qed.
+
+  Lemma chain_app : forall l1 a l2, chain a (l1 ++ l2) <-> chain a l1 /\ chain (lastn a l1) l2.
+  Proof.
+    induction l1 as [|b l1 IH]; intros a l2; simpl; [tauto|]. rewrite IH. unfold lastn. simpl. tauto.
+  Qed.
+
+  Lemma chain_targets : forall l a, chain a l -> incl l T.
+  Proof.
+    induction l as [|b l IH]; intros a H x Hx; [destruct Hx|]. destruct H as [Hab Hc].
+    destruct Hx as [<-|Hx]; [apply (E_T a); exact Hab|apply (IH b Hc); exact Hx].
+  Qed.
+
+  Lemma dup_split : forall l : list name, NoDup l \/ exists y l1 l2 l3, l = l1 ++ y :: l2 ++ y :: l3.
+  Proof.
+    induction l as [|y l IH]; [left; constructor|].
+    destruct (in_dec N.eq_dec y l) as [Hin|Hn].
+    - right. destruct (in_split _ _ Hin) as [l2 [l3 ->]]. exists y, [], l2, l3. reflexivity.
+    - destruct IH as [Hnd|[z [l1 [l2 [l3 ->]]]]]; [left; constructor; assumption|].
+      right. exists z, (y :: l1), l2, l3. reflexivity.
+  Qed.
+
+  Lemma path_shorten : forall n a x, path E n a x -> exists j, (j <= length T)%nat /\ path E j a x.
+  Proof.
+    induction n as [n IH] using lt_wf_ind. intros a x P.
+    destruct (le_lt_dec n (length T)) as [Hle|Hlt]; [eauto|].
+    destruct (path_chain n a x P) as [l [Hl [Hc Hx]]].
+    destruct (dup_split l) as [Hnd|[y [l1 [l2 [l3 El]]]]].
+    - pose proof (NoDup_incl_length Hnd (chain_targets l a Hc)). lia.
+    - subst l. apply chain_app in Hc. destruct Hc as [H1 H2]. simpl in H2. destruct H2 as [Hy H2].
+      apply chain_app in H2. destruct H2 as [_ H3]. simpl in H3. destruct H3 as [_ H3].
+      assert (Hc' : chain a (l1 ++ y :: l3)).
+      { apply chain_app. split; [exact H1|]. simpl. split; [exact Hy|].
+        replace (lastn (lastn y l2) [y]) with y in H3 by reflexivity.
+        unfold lastn in H3 |- *. simpl in H3 |- *. exact H3. }
+      assert (Hx' : lastn a (l1 ++ y :: l3) = x).
+      { rewrite <- Hx. unfold lastn. rewrite !fold_left_app. simpl. rewrite fold_left_app. reflexivity. }
+      apply (IH (length (l1 ++ y :: l3))).
+      + rewrite <- Hl. rewrite !app_length. simpl. rewrite app_length. simpl. lia.
+      + rewrite <- Hx'. apply chain_path. exact Hc'.
+  Qed.
+End Shorten.
+
+(* a role graph with fewer than max_hierarchy_level assignments (in the domain) is within the bound,
+   whatever its shape *)
+Theorem small_graph_shallow (ls : list link) u : (length ls < MAXLVL)%nat -> shallow ls u.
+Proof.
+  intros H x n P.
+  destruct (path_shorten (link_edge ls) (map snd ls)) with (n := n) (a := u) (x := x) as [j [Hj Hp]].
+  - intros a b Hab. apply (in_map snd) in Hab. exact Hab.
+  - exact P.
+  - exists j. split; [rewrite map_length in Hj; unfold link in *; lia|exact Hp].
+Qed.
+
+(* ------------------------------------------------------------------------------------------ *)
+(* 8. boolean forms of the premises (for Examples) and the witnesses that the premises are needed *)
+
+Definition wf_pb (k : mkind) (s : mstate) : bool := forallb (fun r => Nat.eqb (length r) (p_arity k)) (m_p s).
+Lemma wf_pb_ok k s : wf_pb k s = true -> wf_p k s.
+Proof.
+  unfold wf_pb, wf_p. rewrite forallb_forall, Forall_forall. intros H r Hr. apply Nat.eqb_eq. apply H. exact Hr.
+Qed.
+
+Definition no_empty_roleb (ls : list link) : bool := forallb (fun l => negb (snd l =? 0)) ls.
+Lemma no_empty_roleb_ok ls : no_empty_roleb ls = true -> no_empty_role ls.
+Proof.
+  unfold no_empty_roleb, no_empty_role. rewrite forallb_forall. intros H x Hx. specialize (H _ Hx).
+  simpl in H. discriminate.
+Qed.
+
+Definition k_rbac15 : mkind := mkKind false true false false false AO true 0.
+Definition k_dom15 : mkind := mkKind true true false false false AO true 0.
+
+Lemma rbac_kind_rbac15 : rbac_kind k_rbac15.
+Proof. repeat split. Qed.
+Lemma rbac_kind_dom15 : rbac_kind k_dom15.
+Proof. repeat split. Qed.
+
+(* alice -> r1 -> ... -> r10 (ten assignments, one more than has_link follows), r10 may read data1,
+   r9 may read data2 *)
+Definition deep_ops : list op :=
+  [OAdd 1 [1003; 2001]; OAdd 1 [2001; 2002]; OAdd 1 [2002; 2003]; OAdd 1 [2003; 2004]; OAdd 1 [2004; 2005];
+   OAdd 1 [2005; 2006]; OAdd 1 [2006; 2007]; OAdd 1 [2007; 2008]; OAdd 1 [2008; 2009]; OAdd 1 [2009; 2010];
+   OAdd 0 [2010; 1008; 1011]; OAdd 0 [2009; 1009; 1011]].
+Definition deep_state : mstate := fst (run k_rbac15 (init k_rbac15 []) deep_ops).
+
+Lemma deep_state_inv : Inv k_rbac15 deep_state.
+Proof. apply run_inv; [apply init_inv|vm_compute; reflexivity]. Qed.
+
+(* the depth premise cannot be dropped: all other premises hold, get_implicit_permissions lists r10's
+   permission for alice, enforce refuses it *)
+Theorem depth_premise_needed :
+  rbac_kind k_rbac15 /\ Inv k_rbac15 deep_state /\ wf_p k_rbac15 deep_state /\ m_enabled deep_state = true
+  /\ dom_ok k_rbac15 0 /\ 1003 <> 0 /\ no_empty_role (links_at k_rbac15 deep_state 0)
+  /\ (exists perms s', get_implicit_permissions k_rbac15 deep_state 1003 0 = Ok (perms, s')
+        /\ In [2010; 1008; 1011] perms)
+  /\ decision_of (snd (enforce_ex_m k_rbac15 deep_state (mk_req k_rbac15 1003 0 1008 1011))) = Ok false
+  /\ decision_of (snd (enforce_ex_m k_rbac15 deep_state (mk_req k_rbac15 1003 0 1009 1011))) = Ok true
+  /\ ~ shallow (links_at k_rbac15 deep_state 0) 1003.
+Proof.
+  split; [apply rbac_kind_rbac15|]. split; [apply deep_state_inv|].
+  split; [apply wf_pb_ok; vm_compute; reflexivity|]. split; [vm_compute; reflexivity|].
+  split; [reflexivity|]. split; [discriminate|]. split; [apply no_empty_roleb_ok; vm_compute; reflexivity|].
+  split.
+  - destruct (get_implicit_permissions k_rbac15 deep_state 1003 0) as [[perms s']|c] eqn:E.
+    + exists perms, s'. split; [reflexivity|].
+      assert (Hp : perms = [[2009; 1009; 1011]; [2010; 1008; 1011]]).
+      { assert (H : match get_implicit_permissions k_rbac15 deep_state 1003 0 with Ok (p, _) => p | Err _ => [] end
+                    = [[2009; 1009; 1011]; [2010; 1008; 1011]]) by (vm_compute; reflexivity).
+        rewrite E in H. exact H. }
+      rewrite Hp. right. left. reflexivity.
+    + exfalso.
+      assert (H : match get_implicit_permissions k_rbac15 deep_state 1003 0 with Ok _ => true | Err _ => false end = true)
+        by (vm_compute; reflexivity).
+      rewrite E in H. discriminate.
+  - split; [vm_compute; reflexivity|]. split; [vm_compute; reflexivity|].
+    intro Hsh. apply (depth_okb_shallow k_rbac15 deep_state 1003 0 eq_refl eq_refl deep_state_inv) in Hsh.
+    revert Hsh. vm_compute. discriminate.
+Qed.
+
+(* names must be non-empty strings: "" is get_filtered_policy's wildcard, so the permissions reported
+   for the user "" are ALL rules, none of which enforce grants to "" *)
+Definition empty_name_state : mstate :=
+  fst (run k_rbac15 (init k_rbac15 []) [OAdd 0 [1003; 1008; 1011]]).
+Theorem empty_user_name_refuted :
+  Inv k_rbac15 empty_name_state /\ wf_p k_rbac15 empty_name_state
+  /\ match get_implicit_permissions k_rbac15 empty_name_state 0 0 with
+     | Ok (perms, _) => perms = [[1003; 1008; 1011]] | Err _ => False end
+  /\ decision_of (snd (enforce_ex_m k_rbac15 empty_name_state (mk_req k_rbac15 0 0 1008 1011))) = Ok false.
+Proof.
+  split; [apply run_inv; [apply init_inv|vm_compute; reflexivity]|].
+  split; [apply wf_pb_ok; vm_compute; reflexivity|]. split; vm_compute; reflexivity.
+Qed.
+
+(* ... and the empty-policy branch of enforce grants the all-empty request, although "" is nobody's
+   subject: the permission must name something *)
+Theorem unnamed_permission_refuted :
+  let s := init k_rbac15 [] in
+  Inv k_rbac15 s /\ wf_p k_rbac15 s
+  /\ decision_of (snd (enforce_ex_m k_rbac15 s [0; 0; 0])) = Ok true
+  /\ snd (get_implicit_users_for_permission k_rbac15 s [0; 0]) = Ok [].
+Proof.
+  cbv zeta. split; [apply init_inv|]. split; [apply wf_pb_ok; vm_compute; reflexivity|]. split; vm_compute; reflexivity.
+Qed.
+
+(* ------------------------------------------------------------------------------------------ *)
+(* 9. readable instances: the plain RBAC model and the RBAC-with-domains model                 *)
+
+Theorem enforce_iff_implicit_permission_plain k s u o a :
+  rbac_kind k -> k_dom k = false -> Inv k s -> wf_p k s -> m_enabled s = true ->
+  u <> 0 -> no_empty_role (glinks (m_g s)) -> shallow (glinks (m_g s)) u ->
+  exists perms s' b,
+    get_implicit_permissions k s u 0 = Ok (perms, s')
+    /\ decision_of (snd (enforce_ex_m k s [u; o; a])) = Ok b
+    /\ (b = true <-> exists r, In r perms /\ fld r 1 = o /\ fld r 2 = a).
+Proof.
+  intros Hk Kd HI Hwf Hen Hu Hne Hsh.
+  pose proof (enforce_iff_implicit_permission k s u 0 o a Hk HI Hwf Hen) as H.
+  unfold dom_ok, links_at, canon_links, mk_req, i_act, i_obj, i_sub in H.
+  destruct Hk as [_ [_ [_ [Hp _]]]]. rewrite Kd, Hp in H. apply H; auto.
+Qed.
+
+Theorem enforce_iff_implicit_permission_domain k s u d o a :
+  rbac_kind k -> k_dom k = true -> Inv k s -> wf_p k s -> m_enabled s = true ->
+  d <> 0 -> u <> 0 -> no_empty_role (glinks_dom (m_g s) d) -> shallow (glinks_dom (m_g s) d) u ->
+  exists perms s' b,
+    get_implicit_permissions k s u d = Ok (perms, s')
+    /\ decision_of (snd (enforce_ex_m k s [u; d; o; a])) = Ok b
+    /\ (b = true <-> exists r, In r perms /\ fld r 2 = o /\ fld r 3 = a).
+Proof.
+  intros Hk Kd HI Hwf Hen Hd Hu Hne Hsh.
+  pose proof (enforce_iff_implicit_permission k s u d o a Hk HI Hwf Hen) as H.
+  unfold dom_ok, links_at, canon_links, mk_req, i_act, i_obj, i_sub in H.
+  destruct Hk as [_ [_ [_ [Hp _]]]]. rewrite Kd, Hp in H. apply H; auto.
+Qed.
+
+(* every implicit permission of the domain variant lies in the queried domain *)
+Theorem implicit_permissions_scoped k s u d : rbac_kind k -> Inv k s -> wf_p k s -> dom_ok k d ->
+  u <> 0 -> no_empty_role (links_at k s d) ->
+  exists perms s', get_implicit_permissions k s u d = Ok (perms, s')
+    /\ Inv k s' /\ same_stores s s'
+    /\ forall r, In r perms <->
+         In r (m_p s) /\ (exists n, path (link_edge (links_at k s d)) n u (fld r 0))
+         /\ (k_dom k = true -> fld r 1 = d).
+Proof. exact (implicit_permissions_char k s u d). Qed.
+
+(* the edges of the reachability statements are exactly the grouping rules (of the domain) *)
+Theorem assignments_are_grouping_rules k s a b d : Inv k s ->
+  link_edge (links_at k s d) a b <-> In (if k_dom k then [a; b; d] else [a; b]) (m_g s).
+Proof. intro HI. unfold link_edge. apply links_at_rules. exact HI. Qed.
+
+(* after ANY admissible management history (C04) the role queries are exact: no further premise *)
+Theorem role_queries_after_any_history k db ops u d :
+  k_g k = true -> k_g2 k = false -> forallb (op_ok k) ops = true ->
+  let s := fst (run k (init k db) ops) in
+  (exists roles s', get_implicit_roles k s u d = Ok (roles, s')
+     /\ NoDup roles
+     /\ forall r, In r roles <-> exists n, path (link_edge (links_at k s d)) (S n) u r)
+  /\ (forall r, In r (fst (rmk_get_roles (m_rm s) u d)) <-> In u (fst (rmk_get_users (m_rm s) r d))).
+Proof.
+  intros Hg Hg2 Hok s. assert (HI : Inv k s) by (apply run_inv; [apply init_inv|exact Hok]). split.
+  - destruct (implicit_roles_reach k s u d Hg Hg2 HI) as [roles [s' [H1 [H2 [H3 _]]]]]. eauto.
+  - intro r. apply (roles_users_inverse_views k s u r d HI).
+Qed.
